@@ -75,6 +75,26 @@ theorem C05_submit_after_shutdown_raises (s s' : St) (k : Nat) (t : Tid)
   · cases hs; simp [hb, hf, setU]
   · cases hs
 
+/-- Shut down is for ever: along every schedule from a state where the executor is flagged as shutting down
+    (by `shutdown()`, by the manager after the executor was collected, or at interpreter exit) it stays
+    flagged, so *every* later `submit` is refused and creates no future. -/
+theorem C05_every_later_submit_raises (s s' s'' : St) (sched : List (Actor × Variant)) (k : Nat) (t : Tid)
+    (hf : s.shutdownFlag = true) (hr : run s sched = some s') (hpc : s'.upc k = .subAcqShut t)
+    (hs : stepU s' k .ok = some s'') :
+    s''.upc k = .subRelShut ∧ s''.futs = s'.futs ∧ s''.pending = s'.pending ∧ s''.workIds = s'.workIds := by
+  have hf' := (sticky_run sched s s' hr).2.1 hf
+  cases hbb : s'.broken with
+  | none => exact C05_submit_after_shutdown_raises s' s'' k t hpc hbb hf' hs
+  | some b =>
+    have := C02_submit_after_broken_raises s' s'' k t b hpc hbb hs
+    exact ⟨this.1, this.2.1, this.2.2.1, this.2.2.2.1⟩
+
+/-- The wake-up pipe, once closed by `join_executor_internals`, is never written again by a state that observes
+    the flag: `wakeupClosed` is sticky as well. -/
+theorem C05_wakeup_closed_is_sticky (s s' : St) (sched : List (Actor × Variant)) (hr : run s sched = some s')
+    (h : s.wakeupClosed = true) : s'.wakeupClosed = true :=
+  (sticky_run sched s s' hr).2.2.2 h
+
 /-- One stop sentinel per registered worker: `shutdown_workers` counts the workers whose exit lock it
     releases — one manager step each, no other actor needed — and that count is what it will send. -/
 theorem C05_sentinel_count (ps : List Pid) (s : St) (n : Nat) (hfree : ∀ p ∈ ps, s.exitL p = 0)
